@@ -676,6 +676,8 @@ def call_ext(it, dotted, args, kwargs):
         if short == 'len':
             v = args[0]
             if isinstance(v, Obj):
+                if '__len__' not in v.cls.methods and '__base_list__' in v.attrs:
+                    return len(v.attrs['__base_list__'])
                 return it.call_method(v, '__len__')
             if isinstance(v, (list, tuple, dict, str, set, frozenset, range)):
                 return len(v)
